@@ -639,4 +639,112 @@ def token (a : GridSpec) : Token :=
 def clone (a : GridSpec) (c' : CrsObj) : GridSpec := { a with crs := c' }
 end GridSpec
 
+
+/-! ### Constructors and normalisers (types.py:165-175, 340-346, 407-418; roi.py:330-334;
+geobox.py:1305-1325) -/
+
+/-- `float(x)`: same value, prints as a float; only a float zero carries a sign -/
+def PyNum.toFloat (a : PyNum) : PyNum := ⟨.float, a.val, a.kind == .float && a.negz⟩
+
+/-- unary minus: `-0 == 0` for ints (and `-True == -1` is an int), `-(0.0)` is `-0.0` -/
+def PyNum.neg (a : PyNum) : PyNum :=
+  match a.kind with
+  | .float => ⟨.float, -a.val, if a.val = 0 then !a.negz else false⟩
+  | _ => ⟨.int, -a.val, false⟩
+
+/-- `int(x)`: truncation toward zero -/
+def PyNum.toInt (a : PyNum) : PyNum :=
+  ⟨.int, ((if a.val < 0 then -((-a.val).floor) else a.val.floor : Int) : Rat), false⟩
+
+/-- is it an `int` instance (`bool` is) -/
+def PyNum.isInt (a : PyNum) : Bool := a.kind != .float
+
+/-- `Resolution.__init__(x, y=None)`: `if y is None: y = -x`; both through `float()` -/
+def Resolution.mk' (x : PyNum) (y : Option PyNum) : XYv :=
+  let y := match y with
+    | some y => y
+    | none => x.neg
+  ⟨.resolution, x.toFloat, y.toFloat⟩
+
+/-- argument of `res_` -/
+inductive ResIn where
+  | res (v : XYv)
+  | num (x : PyNum)
+  deriving DecidableEq, Repr
+
+/-- `res_(x)`: a `Resolution` is passed through, a number gives `Resolution(float(x))` — the
+conversion happens *before* the negation, so `res_(0)` is `(0.0, -0.0)` where
+`Resolution(0)` is `(0.0, 0.0)` -/
+def resNorm : ResIn → XYv
+  | .res v => v
+  | .num x => Resolution.mk' x.toFloat none
+
+/-- argument of `shape_` -/
+inductive ShapeIn where
+  | shape2d (v : XYv)
+  | xy (v : XYv)
+  | seq (xs : List PyNum)
+  deriving DecidableEq, Repr
+
+/-- `shape_(x)`: `Shape2d` passed through; `XY` mapped through `int`; a sequence is `(ny, nx)`
+(anything but two elements fails to unpack: `ValueError`) -/
+def shapeNorm : ShapeIn → Res XYv
+  | .shape2d v => .ok v
+  | .xy v => .ok ⟨.shape2d, v.x.toInt, v.y.toInt⟩
+  | .seq [ny, nx] => .ok ⟨.shape2d, nx.toInt, ny.toInt⟩
+  | .seq _ => .error .valueError
+
+/-- `Shape2d.__eq__(tuple)` (types.py:217-219): `self.shape == other`, and `.shape` insists on
+ints (types.py:118-131) -/
+def Shape2d.eqTuple (v : XYv) (t : List PyNum) : Res Bool :=
+  if v.x.isInt && v.y.isInt then
+    match t with
+    | [a, b] => .ok (v.y.eq a && v.x.eq b)
+    | _ => .ok false
+  else .error .valueError
+
+/-- second argument of `GeoboxTiles(box, tile_shape)` -/
+inductive How where
+  | shape (ty tx : Int)
+  | chunks (y x : List Int)
+  deriving DecidableEq, Repr
+
+/-- `roi_tiles(shape, how)` (roi.py:330-334): a pair of sequences gives a variable tiling —
+which does **not** look at `shape` — anything else a regular one over `shape` -/
+def roiTiles (ny nx : Int) : How → Res AnyTiles
+  | .shape ty tx => (Tiles.mk' ny nx ty tx).map .reg
+  | .chunks y x => .ok (.var (VTiles.mk' y x))
+
+def AnyBox.ny : AnyBox → Int
+  | .lin g => g.ny
+  | .gcp g => g.ny
+def AnyBox.nx : AnyBox → Int
+  | .lin g => g.nx
+  | .gcp g => g.nx
+
+/-- `GeoboxTiles.__init__(box, tile_shape)` -/
+def GBTiles.mk' (g : AnyBox) (how : How) : Res GBTiles :=
+  (roiTiles g.ny g.nx how).map (fun t => ⟨g, t⟩)
+
+def AnyTiles.tokenTailLegacy : AnyTiles → Token
+  | .reg a => a.tokenLegacy.drop 1
+  | .var a => a.tokenTail
+
+/-- the GeoboxTiles token as it was while `Tiles.__dask_tokenize__` left the base shape out -/
+def GBTiles.tokenLegacy (a : GBTiles) : Token :=
+  .tag "odc.geo.geobox.GeoboxTiles" :: (a.gbox.tokenTail ++ a.tiles.tokenTailLegacy)
+
+/-! ### `crs == other` for `other` that is not a `CRS` (crs.py:253-257)
+
+`other = CRS(other)` inside `try`, any exception gives `False`; the construction goes through
+the cache like any other.  Expressed with the operations of the state machine, using a
+variable `tmp` nothing else uses, so that every theorem about histories covers it. -/
+
+def eqSpecOps (v : Nat) (spec : Spec) (pick tmp : Nat) : List Op :=
+  [.mk tmp spec pick, .eq v tmp, .drop tmp]
+
+def eqSpecOut : List Out → Out
+  | [.str _, .bool b, _] => .bool b
+  | _ => .bool false
+
 end OdcGeo.C19
